@@ -29,11 +29,14 @@ TIMEOUT = 900
 
 
 def cases(tier, seed):
-    forms = ["bare", "attr", "alias", "wrapped", "pkginit", "initroot", "chain", "pinned"]
+    forms = ["bare", "attr", "alias", "wrapped", "pkginit", "initroot", "chain", "pinned", "lambda", "factory", "xdeco"]
     for form in forms:
         edges = all_edges(3, form)
         graphs = [(kinds, mask) for kinds in itertools.product(["memento", "plain"], repeat=2)
                   for mask in range(1 << len(edges))]
+        if tier == "quick" and form in ("lambda", "factory", "xdeco"):  # quick: these forms without self-loops
+            loops = sum(1 << i for i, (u, v) in enumerate(edges) if u == v)
+            graphs = [(kinds, mask) for kinds, mask in graphs if not mask & loops]
         for i in range(0, len(graphs), 64):
             yield {"kind": "small", "n": 3, "form": form, "graphs": graphs[i:i + 64]}
     if tier == "thorough":
@@ -74,15 +77,30 @@ def render_small(pkg, n, kinds, edges, form):
     elif form == "initroot":
         texts["__init__"] = std + [""]
     aliases = {"a": [], "b": [], "__init__": []}
+    if form == "xdeco":  # every function is wrapped by a decorator that lives in another module of the package
+        texts["u"] = ["import functools", "", "def deco(fn):", "    @functools.wraps(fn)", "    def wrapper(*args, **kw):",
+                      "        return fn(*args, **kw)", "    return wrapper"]
+        texts["a"].insert(0, "from %s.u import deco" % pkg)
     for u in range(n):
         L = texts[mod_of(u)]
+        plain_as = form if (kinds[u] != "memento" and form in ("lambda", "factory")) else None
         if kinds[u] == "memento":
             # (form 'pinned': every memento function but the root declares its version explicitly)
             L.append("@m.memento_function" + ("(version=\"p%d\")" % u if form == "pinned" and u > 0 else ""))
         elif form == "wrapped":
             L += ["def deco_n%d(fn):" % u, "    @functools.wraps(fn)", "    def wrapper(*args, **kw):",
                   "        return fn(*args, **kw)", "    return wrapper", "", "@deco_n%d" % u]
-        L += ["def n%d(x):" % u, "    REC.hit('n%d', x)" % u, "    if x < -1000:"]
+        if form == "xdeco":
+            L.append("@deco")
+        if plain_as == "lambda":  # the plain helper is a lambda bound to a module-level name
+            targets = [t for (s_, t) in edges if s_ == u]
+            L += ["n%d = lambda x: ((%s) if x < -1000 else x)" % (u, ", ".join("n%d(x)" % t for t in targets) + ("," if targets else "None,")), ""]
+            continue
+        ind = ""
+        if plain_as == "factory":  # the plain helper is made by a factory function
+            L += ["def make_n%d():" % u]
+            ind = "    "
+        L += [ind + "def n%d(x):" % u, ind + "    REC.hit('n%d', x)" % u, ind + "    if x < -1000:"]
         refs = []
         for (s, t) in edges:
             if s != u:
@@ -96,8 +114,10 @@ def render_small(pkg, n, kinds, edges, form):
                 refs.append("box(n%d(x)).plus(n%d(x)).v" % (t, t))
             else:
                 refs.append("n%d(x)" % t)
-        L += ["        " + r for r in refs] or ["        pass"]
-        L += ["    return x", ""]
+        L += [ind + "        " + r for r in refs] or [ind + "        pass"]
+        L += [ind + "    return x", ""]
+        if plain_as == "factory":
+            L += ["    return n%d" % u, "", "n%d = make_n%d()" % (u, u), ""]
     for mod in ("a", "b"):
         texts[mod] += aliases[mod]
     if form == "initroot":  # the package imports its sub-module after defining the root
@@ -303,6 +323,23 @@ def run_random(case, out, fail):
             if g["direct"] != want_d:
                 fail("direct memento dependencies differ from those named in the body",
                      "program %d/%d %s: reports %s, named %s\n%s" % (case["seed"], case["idx"], nd["name"], g["direct"], want_d, text))
+            # graph edges from this function: each memento function it reaches links to those it reaches without
+            # passing through another memento function
+            def first(u):
+                seen, stack = set(), list(progs.callees(prog, u, include_hidden=False))
+                while stack:
+                    v = stack.pop()
+                    if v not in seen:
+                        seen.add(v)
+                        if nodes[v]["kind"] != "memento":
+                            stack += progs.callees(prog, v, include_hidden=False)
+                return {v for v in seen if nodes[v]["kind"] == "memento" and v != u}
+            want_e = sorted([nodes[u]["name"], nodes[v]["name"]]
+                            for u in [i] + [j for j in clo if nodes[j]["kind"] == "memento" and j != i] for v in first(u))
+            out["obs"]["graph_edge_sets_compared"] += 1
+            if g["df_edges"] != want_e:
+                fail("dependency graph edges differ from 'reaches without passing through another memento function'",
+                     "program %d/%d %s: df() has %s, expected %s\n%s" % (case["seed"], case["idx"], nd["name"], g["df_edges"], want_e, text))
             want_call = "undeclared" if simulate_calls(prog, i) else "ok"
             out["obs"]["calls_judged"] += 1
             out["obs"]["calls_expected_" + want_call] += 1
